@@ -67,6 +67,30 @@ def _fold_append_loops(body: list) -> list:
     return out
 
 
+NUMPY_REDUCTIONS = {"sum", "max", "min", "mean", "all", "any", "argmin", "argmax", "prod", "std", "cumsum", "cumprod"}
+
+
+def _substitute(t, mapping: dict):
+    if not isinstance(t, tuple):
+        return t
+    if t in mapping:
+        return mapping[t]
+    return tuple(_substitute(x, mapping) for x in t)
+
+
+def _fuse(c):
+    """(B(x) for x in (E(y) for y in Z if p) if q(x))  ->  (B(E(y)) for y in Z if p if q(E(y))): a single-generator comprehension over a
+    single-generator generator expression is one comprehension over the inner iterable (map over filter, starmap over filter, ...)."""
+    while isinstance(c, tuple) and len(c) == 4 and c[0] == "comp" and len(c[3]) == 1:
+        elem, it, conds = c[3][0]
+        if not (isinstance(it, tuple) and len(it) == 4 and it[0] == "comp" and it[1] == "gen" and len(it[3]) == 1):
+            break
+        ielem, iit, iconds = it[3][0]
+        mapping = {elem: it[2]}
+        c = ("comp", c[1], _substitute(c[2], mapping), ((ielem, iit, tuple(iconds) + tuple(_substitute(q, mapping) for q in conds)),))
+    return c
+
+
 def polarity(t):
     """Strip leading negations of a test: ``not not not X`` -> (X, False).  Guards and phi/ifexp terms are recorded on the
     positive test, so ``if c: A else: B`` and ``if not c: B else: A`` have the same frames and the same terms."""
@@ -169,6 +193,44 @@ class FunctionTerms:
                 if t1 != t2:
                     lt, pos = self._last_test[id(s)]
                     ctx = ctx + (("if", lt, (not t1) == pos, s, "implied"),)
+
+    def _canonical_iteration(self, f, args, kws):
+        """map / filter / starmap / list(<generator>) are recorded in comprehension form, so that
+        ``map(lambda x: g(x), xs)``, ``(g(x) for x in xs)`` and a helper-free loop are one family of terms:
+
+            map(F, it)            -> (F(x) for x in it)              map(F, a, b) -> (F(x[0], x[1]) for x in zip(a, b))
+            filter(F, it)         -> (x for x in it if F(x))         filter(None, it) -> (x for x in it if x)
+            starmap(F, it)        -> (F(*x) for x in it)             (a lambda F is applied: its parameters become x[0], x[1], ...)
+            list(<gen comp>)      -> the same comprehension as a list comprehension
+        The ``call`` event of the builtin is still emitted (laziness rules look at events)."""
+        if kws or f[0] != "global":
+            return None
+
+        def apply(fn, actual):
+            if isinstance(fn, tuple) and fn[0] == "lambda" and len(fn[1]) == len(actual):
+                mapping = dict(zip(fn[1], actual))
+                return _substitute(fn[2], mapping)
+            return ("call", fn, tuple(actual), ())
+        if f[1] == "map" and len(args) >= 2 and not any(a[0] == "star" for a in args):
+            it = args[1] if len(args) == 2 else ("call", ("global", "zip"), tuple(args[1:]), ())
+            elem = ("elem", it, self.uid())
+            actual = [elem] if len(args) == 2 else [("index", elem, ("const", i)) for i in range(len(args) - 1)]
+            return ("comp", "gen", apply(args[0], actual), ((elem, it, ()),))
+        if f[1] == "filter" and len(args) == 2:
+            it = args[1]
+            elem = ("elem", it, self.uid())
+            cond = elem if args[0] == ("const", None) else apply(args[0], [elem])
+            return ("comp", "gen", elem, ((elem, it, (cond,)),))
+        if f[1] == "itertools.starmap" and len(args) == 2:
+            it = args[1]
+            elem = ("elem", it, self.uid())
+            fn = args[0]
+            if isinstance(fn, tuple) and fn[0] == "lambda":
+                return ("comp", "gen", apply(fn, [("index", elem, ("const", i)) for i in range(len(fn[1]))]), ((elem, it, ()),))
+            return ("comp", "gen", ("call", fn, (("star", elem),), ()), ((elem, it, ()),))
+        if f[1] == "list" and len(args) == 1 and args[0][0] == "comp" and args[0][1] == "gen":
+            return ("comp", "list") + tuple(args[0][2:])
+        return None
 
     def _assigned_in(self, body: list[ast.stmt]) -> set[str]:
         out: set[str] = set()
@@ -432,6 +494,12 @@ class FunctionTerms:
             recv = f[1] if f[0] == "attr" else None
             self.emit("call", e, ctx, name=name, func=f, args=tuple(args), kwargs=dict(kws), term=t, recv=recv,
                       arg_nodes=arg_nodes, kw_nodes=kw_nodes)
+            canon = self._canonical_iteration(f, args, kws)
+            if canon is not None:
+                return _fuse(canon)
+            # x.sum() / x.max(axis=1) / x.argmin() ... are recorded as the NumPy function form np.sum(x) / np.max(x, axis=1) / np.argmin(x)
+            if f[0] == "attr" and f[2] in NUMPY_REDUCTIONS and f[1][0] != "global":
+                return ("call", ("global", "numpy." + f[2]), (f[1],) + tuple(args), tuple(kws))
             return t
         if isinstance(e, ast.Subscript):
             return ("index", self.ev(e.value, env, ctx), self.ev_slice(e.slice, env, ctx))
@@ -494,7 +562,7 @@ class FunctionTerms:
                 elt = ("tuple", (self.ev(e.key, e2, c2), self.ev(e.value, e2, c2)))
             else:
                 elt = self.ev(e.elt, e2, c2)
-            return ("comp", kind, elt, tuple(gens))
+            return _fuse(("comp", kind, elt, tuple(gens)))
         if isinstance(e, ast.Tuple):
             return ("tuple", tuple(self.ev(x, env, ctx) for x in e.elts))
         if isinstance(e, ast.List):
